@@ -120,6 +120,15 @@ var c13Prec = map[string]int{
 type c13Gen struct {
 	rng   *rand.Rand
 	depth int // closure depth (for `#`)
+	noArr int // > 0 while generating the collection of a builtin: an array literal is []interface{} and would make `#` untyped
+}
+
+// coll generates the collection argument of a builtin ([]int for the checker, so that `#` is an int)
+func (g *c13Gen) coll(d int) *c13Node {
+	g.noArr++
+	n := g.gen("ints", d)
+	g.noArr--
+	return n
 }
 
 func (g *c13Gen) pick(xs ...string) string { return xs[g.rng.Intn(len(xs))] }
@@ -232,7 +241,7 @@ func (g *c13Gen) gen(typ string, d int) *c13Node {
 			}
 			return c13Builtin("int", "len", g.gen("ints", d-1))
 		case 10:
-			return c13Builtin("int", "count", g.gen("ints", d-1), g.closureOf("bool", d-1))
+			return c13Builtin("int", "count", g.coll(d-1), g.closureOf("bool", d-1))
 		}
 	case "float":
 		switch r {
@@ -273,7 +282,7 @@ func (g *c13Gen) gen(typ string, d int) *c13Node {
 		case 5:
 			return c13Bin("bool", "matches", g.gen("str", d-1), c13Lit("str", g.pick("'^a.*'", "\"é+\"", "'[0-9]'")))
 		case 6:
-			return c13Builtin("bool", g.pick("all", "any", "none", "one"), g.gen("ints", d-1), g.closureOf("bool", d-1))
+			return c13Builtin("bool", g.pick("all", "any", "none", "one"), g.coll(d-1), g.closureOf("bool", d-1))
 		case 7:
 			return c13Cond("bool", g.gen("bool", d-1), g.gen("bool", d-1), g.gen("bool", d-1))
 		case 8:
@@ -286,15 +295,17 @@ func (g *c13Gen) gen(typ string, d int) *c13Node {
 	case "ints":
 		switch r {
 		case 0, 1:
-			return c13Builtin("ints", "filter", g.gen("ints", d-1), g.closureOf("bool", d-1))
+			return c13Builtin("ints", "filter", g.coll(d-1), g.closureOf("bool", d-1))
 		case 2:
-			return c13Builtin("ints", "map", g.gen("ints", d-1), g.closureOf("int", d-1))
+			return c13Builtin("ints", "map", g.coll(d-1), g.closureOf("int", d-1))
 		case 3:
 			return c13Bin("ints", "..", g.intLit(), g.gen("int", d-1))
 		case 4:
 			return c13Slice("ints", c13Id("ints", "Arr"), c13Lit("int", "1"), c13Lit("int", "3"))
 		case 5:
-			return c13Array("ints", g.gen("int", d-1), g.gen("int", d-1), g.gen("int", d-1))
+			if g.noArr == 0 {
+				return c13Array("ints", g.gen("int", d-1), g.gen("int", d-1), g.gen("int", d-1))
+			}
 		}
 	case "strs":
 		if r < 3 {
